@@ -120,7 +120,7 @@ def main():
     ev = {"property_id": "C18", "tier": tier, "seed": int(os.environ.get("VERIF_SEED", "0") or 0), "level": "model_checking",
           "coverage": {"states": max(states, 1), "transitions": max(trans * len(table), 1), "traces_validated_against_impl": trans * len(table), "exhaustive": True,
                        "configurations": sorted(table), "configurations_skipped": skipped, "observations_per_configuration": obs, "scenarios": sorted(ref or {}),
-                       "bound": "scenario spaces (each enumerated completely): verify on all hostile token sequences of <= 2 tokens (framed and unframed) x kind x depth 1..3; state graph of the 6 navigation operations on every document of <= 3 value tokens (type-directed canonical states); state graph incl. 18 lookups on every object of <= 2 fields over 9 trap names; writer: all pairs of 14 operations x 32 capacities; text: to_string at 4 capacities + print on every document of <= 2 values over 10 printable classes; integer/double boundary values through writer and parser; C++: serialize of every tree of <= 2 values in two insertion orders (+ toStr), deserialize outcomes on all hostile sequences of <= 2 tokens",
+                       "bound": "scenario spaces (each enumerated completely): verify on all hostile token sequences of <= 2 tokens (framed and unframed) x kind x depth 1..3; state graph of the 6 navigation operations on every document of <= 3 value tokens (type-directed canonical states); state graph incl. 18 lookups on every object of <= 2 fields over 9 trap names; writer: all pairs of 14 operations x 32 capacities; text: to_string at 4 capacities + print on every document of <= 2 values over 10 printable classes; integer/double boundary values through writer and parser; string / bytes / name payloads of 127..65536 bytes at 4 alignments through parser and writer; C++: serialize of every tree of <= 2 values in two insertion orders (+ toStr), deserialize outcomes on all hostile sequences of <= 2 tokens",
                        "rule": "the same exhaustive bounded exploration is executed by every build configuration; every observable is folded into a 128-bit digest per scenario; all digests must be equal",
                        "samples": samples or ["(no configuration ran)"]},
           "assumptions": ["the machine's libc renders %f identically for all builds (same libc)", "configurations that cannot be built in this image (e.g. -m32 without a 32-bit runtime) are listed as skipped"],
